@@ -2,6 +2,7 @@
 from __future__ import annotations
 
 import abc
+import copy as copy_module
 import warnings
 from typing import TYPE_CHECKING, cast
 
@@ -708,7 +709,8 @@ class HistogramBase(abc.ABC):
         a_copy._dtype = self.dtype
         a_copy._frequencies = frequencies
         a_copy._errors2 = errors2
-        a_copy._meta_data = self._meta_data.copy()
+        # (deep: nested custom entries must not be shared with the original)
+        a_copy._meta_data = copy_module.deepcopy(self._meta_data)
         a_copy.keep_missed = self.keep_missed
         a_copy._missed = missed
         return a_copy
